@@ -478,8 +478,11 @@ func (m *lifecycleReconcilerStorageMiddleware) expireNoncurrentObjectVersionIfDu
 		if !storage.LifecycleRuleMatchesObject(rule, version.Key.String(), version.Size, tags) {
 			continue
 		}
-		_, err := m.Next.DeleteObject(storage.WithNotificationEventOverride(ctx, "s3:LifecycleExpiration:Delete"), bucketName, version.Key, &storage.DeleteObjectOptions{VersionID: &version.VersionID})
-		if err == storage.ErrNoSuchKey || err == storage.ErrNoSuchBucket {
+		// Guard against the version having been replaced between listing and
+		// deletion (the "null" version of a versioning-suspended bucket is
+		// overwritten in place): only delete the exact version that was evaluated.
+		_, err := m.Next.DeleteObject(storage.WithNotificationEventOverride(ctx, "s3:LifecycleExpiration:Delete"), bucketName, version.Key, &storage.DeleteObjectOptions{VersionID: &version.VersionID, IfMatchETag: version.ETag})
+		if err == storage.ErrPreconditionFailed || err == storage.ErrNoSuchKey || err == storage.ErrNoSuchBucket {
 			return
 		}
 		if err != nil {
